@@ -116,7 +116,8 @@ def build_operands(E, kinds, s):
     ops, cores = [], []
 
     def mk(name, N_, R_, M_=None):
-        x, c = tt_input(E, name, N_, R_, s.get('dtype', 'float64'), M_, via=s.get('via'))
+        dts = s.get('dtypes')          # one dtype per operand (operands of different precision / kind of number)
+        x, c = tt_input(E, name, N_, R_, dts[len(ops)] if dts else s.get('dtype', 'float64'), M_, via=s.get('via'))
         ops.append(x)
         cores.append(c)
 
@@ -165,7 +166,15 @@ def op_preserve(E, s):
     metas = [meta_of(x) for x in ops]
     lists = [x.cores for x in ops]
     tensors = [list(x.cores) for x in ops]
-    res = f(E, ops, s)
+    if s.get('may_raise'):
+        # combinations the library may refuse (operands of different dtypes): refused or not, the operands stay as they were
+        try:
+            res = f(E, ops, s)
+        except Exception as exc:          # noqa
+            res = None
+            E.note('raised', type(exc).__name__)
+    else:
+        res = f(E, ops, s)
     for i, x in enumerate(ops):
         E.true('meta_%d' % i, meta_of(x) == metas[i])
         E.true('same_core_list_%d' % i, x.cores is lists[i] and all(a is b for a, b in zip(x.cores, tensors[i])))
